@@ -43,7 +43,7 @@ func (c14) Describe() CheckInfo {
 		},
 		RealCode:       []string{"gopatch main()/mainCmd.Run, patchRunner, patch.Parse/File.Apply, internal/engine (compiled program, dotAssoc maps), go/token.FileSet shared across files and calls"},
 		Stubs:          []string{"package os", "path/filepath walk", "io/ioutil", "choice of which caller goroutine runs next (simrt scheduler)"},
-		RequiredProbes: []string{"cli-grouped-vs-solo", "cli-permutation", "cli-unparseable-neighbour", "cli-repeat-identical", "hist-call", "hist-failing-call", "hist-result-held", "sched-run", "sched-overlap", "sched-preempt-sweep", "sched-concurrent-parse", "sched-pct", "sched-two-switch-site-uniform", "race-log-checked", "sched-same-filename", "cli-respelled-duplicate", "cli-module-root-in-tree", "cli-two-packages-in-one-directory", "cli-more-files-than-descriptors"},
+		RequiredProbes: []string{"cli-grouped-vs-solo", "cli-permutation", "cli-unparseable-neighbour", "cli-repeat-identical", "hist-call", "hist-failing-call", "hist-result-held", "sched-run", "sched-overlap", "sched-preempt-sweep", "sched-concurrent-parse", "sched-pct", "sched-two-switch-site-uniform", "race-log-checked", "sched-same-filename", "cli-respelled-duplicate", "cli-module-root-in-tree", "cli-two-packages-in-one-directory", "cli-more-files-than-descriptors", "cli-neighbour-write-fault"},
 	}
 }
 
@@ -383,6 +383,12 @@ func c14EvalCLI(env *Env, c *Case) []Violation {
 		seen[s] = true
 		vs = append(vs, Violation{Oracle: oracle, Signature: s, Detail: detail})
 	}
+	// a replayed case carries the one fault plan to try
+	explicit := c.Spec.Faults
+	if len(explicit) > 0 {
+		c = c.Clone()
+		c.Spec.Faults = nil
+	}
 	init := c.InitialState()
 	orig := goFiles(init)
 	sorted := c.SortedFiles()
@@ -536,6 +542,51 @@ func c14EvalCLI(env *Env, c *Case) []Violation {
 			}
 			if (r.Exit != 0) != anyFail {
 				add("grouped-vs-solo", "exit/"+tag, fmt.Sprintf("grouped exit status %d but solo runs fail=%v (args %v, stderr %q)", r.Exit, anyFail, gc.Spec.Args, clip(string(r.Stderr), 300)))
+			}
+			// a neighbour's write goes wrong (disk full, size limit, I/O error): at
+			// most the file that was struck deviates from its solo result
+			if pi == 0 && !printMode && c.Extra["hardlink_target"] != "1" {
+				wrote := wroteHandles(r.Log)
+				var sites []int
+				for k, o := range r.Log {
+					switch cl := opClass(o, wrote); cl {
+					case "open-w", "write", "close-w", "rename":
+						sites = append(sites, k)
+					}
+				}
+				for try := 0; try < 3 && len(sites) > 0; try++ {
+					k := sites[pr.Intn(len(sites))]
+					o := r.Log[k]
+					ens := c16Errnos[opClass(o, wrote)]
+					f := world.Fault{AtOp: k, Kind: "fail", Errno: ens[pr.Intn(len(ens))]}
+					if o.Name == "write" && o.N > 0 {
+						f.Bytes = pr.Intn(o.N + 1)
+					}
+					fs := gc.Spec.Clone()
+					fs.Faults = []world.Fault{f}
+					if len(explicit) > 0 {
+						fs.Faults = explicit
+					}
+					rf := env.Run(fs)
+					if len(rf.Fired) == 0 || rf.Outcome != OutExit {
+						continue
+					}
+					env.Probe("cli-neighbour-write-fault")
+					fin := goFiles(rf.Final)
+					var dev []string
+					for _, g := range sorted {
+						if !bytes.Equal(fin[g.Path].Data, solo[g.Path].final) {
+							dev = append(dev, g.Path)
+						}
+					}
+					if len(dev) > 1 {
+						cc := c.Clone()
+						cc.Spec.Faults = fs.Faults
+						vs = append(vs, Violation{Oracle: "grouped-vs-solo", Signature: "C14/grouped-vs-solo/bytes-after-neighbour-write-fault", Case: cc,
+							Detail: fmt.Sprintf("one injected %s on %s %s (args %v) and %d files do not end as they do alone: %v", rf.Fired[0].Err, rf.Fired[0].Name, rf.Fired[0].Path, gc.Spec.Args, len(dev), dev)})
+						break
+					}
+				}
 			}
 			// same run again: identical event log
 			if pi == 0 {
